@@ -19,7 +19,7 @@ RULE = ("all triples (R, P, TS or none) over a common atom set: every pair of bo
         "bonds and fleeting stereo, reversing twice is identical; originals untouched.  distinct = triples")
 ASSUMPTIONS = ["fully specified parities", "attributes other than element and role, and the stereo of the reconstructed transition "
                "state, are not compared (the statement does not speak of them)"]
-BUDGET = {"quick": 180, "thorough": 1200}
+BUDGET = {"quick": 600, "thorough": 1200}
 MG, SMG, CRG, SCRG = RG.MG, RG.SMG, RG.CRG, RG.SCRG
 
 
